@@ -135,7 +135,9 @@ ViewFails(e) ==
             /\ o.ascii = AsciiCodes(v) /\ o.text = Ascii(v) /\ o.display = Ascii(v) /\ o.owned = v
       W2 == Len(v) < 256 => o.dbg = Ascii(v)              \* the >= 256 summary form is documented and not constrained
       W3 == \A i \in 1..Len(o.kmers) : o.kmers[i][2] = Sub(v, o.kmers[i][1] + 1, Len(o.kmers[i][2]))
-      W4 == o.self_eq /\ (meta.first \/ (o.eq_prev = (regs[1] = v)))
+      W4 == /\ o.self_eq /\ (meta.first \/ (o.eq_prev = (regs[1] = v)))
+            \* a sibling view of the same backing string (same length and orientation, other offset): equal iff same bases
+            /\ o.sib => (o.sib_eq[1] = (o.sib_bytes = v) /\ o.sib_eq[2] = (o.sib_bytes = v))
       \* the owned copy IS that string: equal (and hashing equal) to the same bases built by from_bytes, and it keeps behaving
       \* like it when it grows
       W5 == o.owned_eq /\ o.owned_hash_eq /\ o.owned_push = v \o <<2, 1, 3>>
